@@ -125,7 +125,9 @@ func (rt *runtime) putValue(reference referencer, value Value) {
 	if name != "" {
 		// Why? -- If reference.base == nil
 		// strict = false
-		rt.globalObject.defineProperty(name, value, 0o111, false)
+		// 8.7.2 step 3.b: [[Put]] on the global object - a property created since
+		// the reference was resolved keeps its attributes / has its setter called.
+		rt.globalObject.put(name, value, false)
 	}
 }
 
